@@ -140,7 +140,7 @@ Definition entry_ok (o : op) (x : out) (e : loc * fval) : bool :=
   | LoadJobStatus j =>
     match x with
     | OFval v => if loc_eqb (fst e) (LF j K_STATUS) then fval_eqb (snd e) v else true
-    | _ => negb (on_job j (fst e))
+    | _ => negb (loc_eqb (fst e) (LF j K_STATUS))
     end
   | LoadSearchValue s k =>
     match x with
@@ -191,3 +191,162 @@ Definition ok_C13 (pre : list jid) (hs : list (list (op * out))) (fin : list jid
   nodupb jid_eqb (pre ++ created hs)
   && forallb (fun h => owned_go [] h && ryw_go [] h) hs
   && nodupb jid_eqb fin && inclb fin (pre ++ created hs) && inclb (pre ++ created hs) fin.
+
+(* ====================================================================================================== *)
+(* What the oracles mean                                                                                  *)
+(* ====================================================================================================== *)
+Require Import DH.C13_Storage.LemmasMap.
+
+Lemma jid_eqb_eq : forall a b, jid_eqb a b = true <-> a = b.
+Proof.
+  intros [a1 a2] [b1 b2]. unfold jid_eqb. cbn [fst snd]. rewrite andb_true_iff, !Z.eqb_eq.
+  split; [intros [-> ->]; reflexivity | intros H; inversion H; auto].
+Qed.
+
+Lemma jid_eqb_refl : forall a, jid_eqb a a = true.
+Proof. intros. apply jid_eqb_eq. reflexivity. Qed.
+
+Lemma memb_in : forall A (eqb : A -> A -> bool), (forall a b, eqb a b = true <-> a = b) ->
+  forall x l, memb eqb x l = true <-> In x l.
+Proof.
+  intros A eqb Heq x. induction l as [|y t IH]; cbn [memb In]; [split; [discriminate | tauto]|].
+  rewrite orb_true_iff, Heq, IH. split; intros [H|H]; auto.
+Qed.
+
+Lemma nodupb_spec : forall A (eqb : A -> A -> bool), (forall a b, eqb a b = true <-> a = b) ->
+  forall l, nodupb eqb l = true <-> NoDup l.
+Proof.
+  intros A eqb Heq. induction l as [|x t IH]; cbn [nodupb].
+  - split; [constructor | reflexivity].
+  - rewrite andb_true_iff, negb_true_iff, IH. split.
+    + intros [H1 H2]. constructor; [|assumption]. intros Hin. apply (memb_in A eqb Heq) in Hin. congruence.
+    + intros H. inversion H as [|? ? Hni Hnd]. subst. split; [|assumption].
+      destruct (memb eqb x t) eqn:E; [|reflexivity]. apply (memb_in A eqb Heq) in E. contradiction.
+Qed.
+
+(* fresh identifiers: exactly "no identifier is handed out twice" *)
+Theorem ids_fresh_b_spec : forall l, ids_fresh_b l = true <-> NoDup (sids_of l) /\ NoDup (jids_of l).
+Proof.
+  intros. unfold ids_fresh_b. rewrite andb_true_iff.
+  rewrite (nodupb_spec Z Z.eqb Z.eqb_eq), (nodupb_spec jid jid_eqb jid_eqb_eq). tauto.
+Qed.
+
+Lemma loc_eqb_eq : forall a b, loc_eqb a b = true <-> a = b.
+Proof.
+  intros [j k|j k|s k] [j' k'|j' k'|s' k']; cbn [loc_eqb]; try (split; [discriminate | intros H; inversion H]).
+  - rewrite andb_true_iff, jid_eqb_eq, Z.eqb_eq. split; [intros [-> ->]; reflexivity | intros H; inversion H; auto].
+  - rewrite andb_true_iff, jid_eqb_eq, Z.eqb_eq. split; [intros [-> ->]; reflexivity | intros H; inversion H; auto].
+  - rewrite andb_true_iff, !Z.eqb_eq. split; [intros [-> ->]; reflexivity | intros H; inversion H; auto].
+Qed.
+
+Lemma loc_eqb_refl : forall a, loc_eqb a a = true.
+Proof. intros. apply loc_eqb_eq. reflexivity. Qed.
+
+(* same dictionary *)
+Definition same_map (m1 m2 : amap val) : Prop := forall k, aget k m1 = aget k m2.
+
+Lemma amap_eqb_spec : forall m1 m2, amap_eqb m1 m2 = true <-> same_map m1 m2.
+Proof.
+  intros m1 m2. unfold amap_eqb, same_map. rewrite forallb_forall. split.
+  - intros H k. destruct (aget k m1) as [a|] eqn:E1; destruct (aget k m2) as [b|] eqn:E2; auto.
+    + assert (Hin : In k (map fst m1 ++ map fst m2)).
+      { apply in_or_app. left. apply amem_in. unfold amem. rewrite E1. reflexivity. }
+      specialize (H k Hin). rewrite E1, E2 in H. apply val_eqb_eq in H. congruence.
+    + assert (Hin : In k (map fst m1 ++ map fst m2)).
+      { apply in_or_app. left. apply amem_in. unfold amem. rewrite E1. reflexivity. }
+      specialize (H k Hin). rewrite E1, E2 in H. discriminate H.
+    + assert (Hin : In k (map fst m1 ++ map fst m2)).
+      { apply in_or_app. right. apply amem_in. unfold amem. rewrite E2. reflexivity. }
+      specialize (H k Hin). rewrite E1, E2 in H. discriminate H.
+  - intros H k _. rewrite (H k). destruct (aget k m2); [apply val_eqb_refl | reflexivity].
+Qed.
+
+Definition same_fval (a b : fval) : Prop :=
+  match a, b with
+  | FV x, FV y => x = y
+  | FM x, FM y => same_map x y
+  | _, _ => False
+  end.
+
+Lemma fval_eqb_spec : forall a b, fval_eqb a b = true <-> same_fval a b.
+Proof.
+  intros [x|x] [y|y]; cbn [fval_eqb same_fval]; try (split; [discriminate | tauto]).
+  - apply val_eqb_eq.
+  - apply amap_eqb_spec.
+Qed.
+
+Lemma fval_eqb_refl : forall a, fval_eqb a a = true.
+Proof. intros. apply fval_eqb_spec. destruct a; cbn [same_fval]; [reflexivity | intros k; reflexivity]. Qed.
+
+(* ---------- read-your-writes over an observed history, stated without the shadow ---------- *)
+(* For every successful store of v at location l, and every later event before which no successful operation
+   touched l again: the event's answer agrees with (l, v)  [entry_ok: the loaded record / status / search value
+   shows v at l, and a load of that job or search is not an error]. *)
+Definition quiet (l : loc) (h : list (op * out)) : Prop :=
+  forall e, In e h -> snd e = ONone -> affected (fst e) l = false.
+
+Definition Spec_ryw (h : list (op * out)) : Prop :=
+  forall h1 o l v h2 o' x h3,
+    h = h1 ++ (o, ONone) :: h2 ++ (o', x) :: h3 ->
+    written o = Some (l, v) ->
+    quiet l h2 ->
+    entry_ok o' x (l, v) = true.
+
+Lemma sh_update_keeps : forall sh o x e, In e sh -> (x = ONone -> affected o (fst e) = false) -> In e (sh_update sh o x).
+Proof.
+  intros sh o x e Hin Hq. unfold sh_update. destruct x; try assumption.
+  destruct (written o) as [e0|]; [|assumption]. right. apply filter_In. split; [assumption|].
+  rewrite Hq by reflexivity. reflexivity.
+Qed.
+
+Lemma ryw_go_entries : forall h sh, ryw_go sh h = true ->
+  forall e, In e sh -> forall h2 o' x h3, h = h2 ++ (o', x) :: h3 -> quiet (fst e) h2 -> entry_ok o' x e = true.
+Proof.
+  induction h as [|[o1 x1] t IH]; intros sh Hgo e Hin h2 o' x h3 Heq Hq.
+  - destruct h2; discriminate Heq.
+  - cbn [ryw_go] in Hgo. apply andb_true_iff in Hgo. destruct Hgo as [Hc Hgo].
+    destruct h2 as [|e2 h2'].
+    + cbn [app] in Heq. inversion Heq. subst. unfold ev_check in Hc. rewrite forallb_forall in Hc. apply Hc. assumption.
+    + cbn [app] in Heq. inversion Heq. subst.
+      eapply (IH _ Hgo e); [|reflexivity|].
+      * apply sh_update_keeps; [assumption|]. intros ->. apply (Hq (o1, ONone)); [left; reflexivity | reflexivity].
+      * intros e' Hin' He'. apply Hq; [right; assumption | assumption].
+Qed.
+
+Theorem ok_ryw_sound : forall h, ok_ryw h = true -> Spec_ryw h.
+Proof.
+  unfold ok_ryw. intros h. generalize (@nil (loc * fval)) as sh.
+  induction h as [|[o1 x1] t IH]; intros sh Hgo h1 o l v h2 o' x h3 Heq Hw Hq.
+  - destruct h1; discriminate Heq.
+  - cbn [ryw_go] in Hgo. apply andb_true_iff in Hgo. destruct Hgo as [Hc Hgo].
+    destruct h1 as [|e1 h1'].
+    + cbn [app] in Heq. inversion Heq. subst.
+      apply (ryw_go_entries _ _ Hgo (l, v)) with (h2 := h2) (h3 := h3); [|reflexivity|assumption].
+      unfold sh_update. rewrite Hw. left. reflexivity.
+    + cbn [app] in Heq. inversion Heq. subst. eapply IH; eauto.
+Qed.
+
+(* ---------- several clients ---------- *)
+Definition Spec_C13 (pre : list jid) (hs : list (list (op * out))) (fin : list jid) : Prop :=
+  NoDup (pre ++ created hs)                                      (* identifiers unique over all clients, and new *)
+  /\ (forall h, In h hs -> owned_go [] h = true /\ Spec_ryw h)   (* every client reads its own writes; the final dump too *)
+  /\ NoDup fin /\ (forall j, In j fin <-> In j (pre ++ created hs)).  (* final job set = the union *)
+
+Lemma inclb_spec : forall a b, inclb a b = true <-> (forall j, In j a -> In j b).
+Proof.
+  intros. unfold inclb. rewrite forallb_forall. split; intros H j Hj.
+  - apply (memb_in jid jid_eqb jid_eqb_eq). apply H. assumption.
+  - apply (memb_in jid jid_eqb jid_eqb_eq). apply H. assumption.
+Qed.
+
+Theorem ok_C13_sound : forall pre hs fin, ok_C13 pre hs fin = true -> Spec_C13 pre hs fin.
+Proof.
+  intros pre hs fin H. unfold ok_C13 in H. repeat rewrite andb_true_iff in H.
+  destruct H as [[[[H1 H2] H3] H4] H5]. unfold Spec_C13.
+  split; [apply (nodupb_spec jid jid_eqb jid_eqb_eq); assumption|].
+  split.
+  - intros h Hin. rewrite forallb_forall in H2. specialize (H2 h Hin). apply andb_true_iff in H2.
+    destruct H2 as [Ho Hr]. split; [assumption | apply ok_ryw_sound; assumption].
+  - split; [apply (nodupb_spec jid jid_eqb jid_eqb_eq); assumption|].
+    intros j. split; [apply inclb_spec; assumption | apply inclb_spec; assumption].
+Qed.
